@@ -10,6 +10,7 @@ import (
 	"go/parser"
 	"go/types"
 	"os"
+	"path/filepath"
 	"regexp"
 	"strconv"
 	"strings"
@@ -158,6 +159,17 @@ type GhostField struct {
 	OfType string
 }
 
+// FilePin: a text that must occur (whitespace-normalised) in a non-Go file next to the contract file, e.g. a clause of an
+// embedded SQL migration that an assumed semantics rests on ("filepin C04,C07 migrations/x.sql \"...\"").
+type FilePin struct {
+	Dir   string
+	Props []string
+	Path  string
+	Text  string
+	File  string
+	Line  int
+}
+
 type GhostVar struct {
 	PkgPath string
 	Name    string
@@ -171,6 +183,7 @@ type ContractSet struct {
 	Specs        map[string]*SpecFn
 	Lemmas       []*Lemma
 	Axioms       []*Axiom
+	FilePins     []*FilePin
 	Ghosts       map[string]*GhostVar
 	GhostFields  map[string]*GhostField
 	ConstGlobals map[string]*ConstGlobal // "pkgpath.name"
@@ -241,7 +254,7 @@ var clauseKw = map[string]bool{"behavior": true, "ensuresassumed": true, "ensure
 	"assert": true, "call": true}
 
 var blockKw = map[string]bool{"func": true, "spec": true, "lemma": true, "axiom": true, "ghost": true,
-	"interface": true, "extern": true, "opaquepat": true, "package": true, "schema": true, "constglobal": true}
+	"interface": true, "extern": true, "opaquepat": true, "filepin": true, "package": true, "schema": true, "constglobal": true}
 
 func firstWord(s string) (string, string) {
 	s = strings.TrimSpace(s)
@@ -509,6 +522,19 @@ func (cs *ContractSet) ParseFile(path, pkgPath string) error {
 				}
 			} else {
 				cs.Errors = append(cs.Errors, fmt.Sprintf("%s:%d: bad constglobal", path, it.n))
+			}
+		case "filepin":
+			cur, curLemma = nil, nil
+			f := strings.Fields(it.rest)
+			k := strings.Index(it.rest, "\"")
+			if len(f) >= 3 && k > 0 {
+				if txt, err := strconv.Unquote(strings.TrimSpace(it.rest[k:])); err == nil {
+					cs.FilePins = append(cs.FilePins, &FilePin{Dir: filepath.Dir(path), Props: strings.Split(f[0], ","), Path: f[1], Text: txt, File: path, Line: it.n})
+				} else {
+					cs.Errors = append(cs.Errors, fmt.Sprintf("%s:%d: bad filepin text", path, it.n))
+				}
+			} else {
+				cs.Errors = append(cs.Errors, fmt.Sprintf("%s:%d: bad filepin", path, it.n))
 			}
 		case "opaquepat":
 			cs.OpaquePats = append(cs.OpaquePats, strings.Fields(it.rest)...)
